@@ -96,10 +96,31 @@ func vStubTR(calls *vCalls, name string) {
 }
 
 func vStubAllTR(calls *vCalls) {
-	for _, n := range []string{stubDoTrafficRouting, stubFinalisingTrafficRouting, stubPatchStableService, stubRestoreStableService, stubRestoreGateway, stubRemoveCanaryService, stubRouteAllTrafficToNew} {
+	for _, n := range []string{stubDoTrafficRouting, stubPatchStableService, stubRestoreStableService, stubRestoreGateway, stubRemoveCanaryService, stubRouteAllTrafficToNew} {
 		vStubTR(calls, n)
 	}
+	// FinalisingTrafficRouting with the part of its contract the callers' waits rest on: "not done yet" comes with the
+	// remaining grace time in the context (pkg/trafficrouting: C07.manager.notDoneComesWithAWait), and the context's
+	// last-update time is either left alone or moved to now (when something was modified in this call)
+	verifrt.Stub(stubFinalisingTrafficRouting, func(m *trafficrouting.Manager, c *trafficrouting.TrafficRoutingContext) (bool, error) {
+		done := verifrt.Bool("stub." + stubFinalisingTrafficRouting + ".result")
+		if verifrt.Bool("stub." + stubFinalisingTrafficRouting + ".fails") {
+			calls.add(stubFinalisingTrafficRouting, done, true)
+			return done, vErr
+		}
+		if !done {
+			c.RecheckDuration = time.Duration(verifrt.IntRange("stub.finalising.remainingSeconds", 1, 600)) * time.Second
+			if verifrt.Bool("stub.finalising.modifiedJustNow") {
+				c.LastUpdateTime = &metav1.Time{Time: time.Now()}
+			}
+		}
+		calls.add(stubFinalisingTrafficRouting, done, false)
+		return done, nil
+	})
 }
+
+// vEntry is the clock reading taken by a step harness just before it calls the step function.
+var vEntry time.Time
 
 func vReplicas(name string) *intstr.IntOrString {
 	if verifrt.Bool(name + ".isPercent") {
